@@ -90,11 +90,11 @@ struct Args {
   bool skip_close = false;
   bool itemwise = false;
   bool empty_batches = false;
+  std::string in_file;   // open the input through the reader's file-name constructor instead of its stream constructor
 };
 
 template <class R, class W, class F>
-int copy(Args const& a, std::istream& in, std::ostream& out, W& w, F f) {
-  R r(in);
+int copy_with(Args const& a, R& r, W& w, F f) {
   f(r, w, a.bufs);
   if (!a.skip_close) {
     r.Close();
@@ -103,6 +103,16 @@ int copy(Args const& a, std::istream& in, std::ostream& out, W& w, F f) {
     w.Flush();
   }
   return 0;
+}
+
+template <class R, class W, class F>
+int copy(Args const& a, std::istream& in, std::ostream& out, W& w, F f) {
+  if (!a.in_file.empty()) {
+    R r(a.in_file);
+    return copy_with(a, r, w, f);
+  }
+  R r(in);
+  return copy_with(a, r, w, f);
 }
 }  // namespace
 
@@ -127,6 +137,7 @@ int main(int argc, char** argv) {
     if (s == "--version" && i + 1 < argc) a.version = argv[++i];
     else if (s == "--skip-close") a.skip_close = true;
     else if (s == "--empty-batches") a.empty_batches = true;
+    else if (s == "--in-file" && i + 1 < argc) a.in_file = argv[++i];
     else if (s == "--bufs" && i + 1 < argc) {
       std::stringstream ss(argv[++i]); std::string tok;
       while (std::getline(ss, tok, ',')) a.bufs.push_back(std::stoull(tok));
